@@ -247,12 +247,12 @@ def gen_group(run_seed):
 
 def small_groups(tier):
     """Exhaustive finite part: all seed sets of 1..2 molecules with <= 2
-    heavy atoms x all rule subsets (size <= 3 in the quick tier) x all
-    orders of the rules."""
+    heavy atoms x all rule subsets of size <= 3 (quick) / <= 5 (thorough)
+    x all orders of the rules."""
     groups = []
     seedsets = [[s] for s in SMALL] + \
         [list(p) for p in itertools.combinations(SMALL, 2)]
-    kmax = 3 if tier == 'quick' else len(nm.RULE_NAMES)
+    kmax = 3 if tier == 'quick' else 5
     for ss in seedsets:
         for k in range(1, kmax + 1):
             for sub in itertools.combinations(nm.RULE_NAMES, k):
